@@ -24,12 +24,13 @@ ASSUMPTIONS = ["dunder names and classes created after the first resolution are 
                "non-value kind (Constant/Event/Disallow) over a name that already holds a value is not generated",
                "where two bases declare the same name or prefix the first base wins (Python MRO)"]
 
-KINDS = ["Int", "Str", "ReadOnly", "Constant", "Event", "Disallow", "Python", "Any"]
+KINDS = ["Int", "Str", "ReadOnly", "Constant", "Event", "Disallow", "Python", "Any", "ReadOnly5"]
 
 
 def mk(kind):
     return {"Int": lambda: Int(), "Str": lambda: Str(), "ReadOnly": lambda: ReadOnly, "Constant": lambda: Constant(5),
-            "Event": lambda: Event(), "Disallow": lambda: Disallow, "Python": lambda: Python(), "Any": lambda: Any()}[kind]()
+            "Event": lambda: Event(), "Disallow": lambda: Disallow, "Python": lambda: Python(), "Any": lambda: Any(),
+            "ReadOnly5": lambda: ReadOnly(5)}[kind]()
 
 
 PREFIXES = ["", "a", "ab", "abc", "_", "x", "xy"]
@@ -125,7 +126,7 @@ class Model:
         self.store = {}
 
     def default(self, kind):
-        return {"Int": 0, "Str": "", "Any": None, "AnyPriv": None, "Constant": 5, "ReadOnly": Undefined}.get(kind)
+        return {"Int": 0, "Str": "", "Any": None, "AnyPriv": None, "Constant": 5, "ReadOnly": Undefined, "ReadOnly5": 5}.get(kind)
 
     def get(self, kind, name):
         if kind in ("Event", "Disallow"):
@@ -142,6 +143,8 @@ class Model:
     def set(self, kind, name, v):
         if kind in ("Disallow", "Constant"):
             return ("TraitError",)
+        if kind == "ReadOnly5":
+            return ("TraitError",)        # a ReadOnly that has a default value is already defined: no write is accepted
         if kind == "Event":
             return ("ok", None)
         if kind == "Int" and not isinstance(v, int):
@@ -155,7 +158,7 @@ class Model:
         return ("ok", None)
 
     def delete(self, kind, name):
-        if kind in ("Disallow", "Constant", "ReadOnly"):
+        if kind in ("Disallow", "Constant", "ReadOnly", "ReadOnly5"):
             return ("TraitError",)
         if kind == "Event":
             return ("ok", None)
@@ -228,7 +231,7 @@ def run(case, ctx):
         if k == "add":
             if name not in touched:
                 touched.append(name)
-            if name in m.store and op[2] in ("Constant", "Event", "Disallow"):
+            if name in m.store and op[2] in ("Constant", "Event", "Disallow", "ReadOnly5"):
                 continue
             o.add_trait(name, mk(op[2]))
             inst[name] = op[2]
